@@ -211,6 +211,52 @@ func c02ModeFn(c *Ctx, m *Module) {
 		// data-derived: must depend on the file's bytes only
 		r.Check("C02.mode-failsafe", "Dir.Mode/returns the file's content", m.Pos(ret.Pos()), dependsOn(ret.Results[0], rd, 12),
 			"a non-constant mode must be derived from the mode file's bytes; returns "+describe(ret.Results[0]))
+		// … cut out of it, not rewritten: the only operations between the bytes read and the word
+		// returned are the conversion to string, trimming of white space, and cutting at the separator
+		bad := ""
+		seenV := map[ssa.Value]bool{}
+		var walk func(v ssa.Value)
+		walk = func(v ssa.Value) {
+			if seenV[v] || bad != "" {
+				return
+			}
+			seenV[v] = true
+			switch x := v.(type) {
+			case *ssa.Convert:
+				walk(x.X)
+			case *ssa.ChangeType:
+				walk(x.X)
+			case *ssa.Slice:
+				walk(x.X)
+			case *ssa.Phi:
+				for _, e := range x.Edges {
+					walk(e)
+				}
+			case *ssa.Extract:
+				if x.Tuple == ssa.Value(rd) {
+					return
+				}
+				walk(x.Tuple)
+			case *ssa.UnOp:
+				if ia, ok := x.X.(*ssa.IndexAddr); ok && x.Op == token.MUL {
+					walk(ia.X)
+				} else {
+					bad = shortDesc(describe(v))
+				}
+			case *ssa.Call:
+				switch calleeName(&x.Call) {
+				case "strings.TrimSpace", "strings.Cut", "strings.Fields", "strings.SplitN", "strings.Split", "bytes.TrimSpace", "bytes.Cut", "bytes.Fields":
+					walk(x.Call.Args[0])
+				default:
+					bad = calleeName(&x.Call)
+				}
+			default:
+				bad = shortDesc(describe(v))
+			}
+		}
+		walk(ret.Results[0])
+		r.Check("C02.mode-failsafe", "Dir.Mode/the mode word is cut out of the file, not rewritten", m.Pos(ret.Pos()), bad == "",
+			"between the bytes read and the word returned only string conversion, TrimSpace and cutting at the separator may occur (\"ON\" or \"Off \" is not a mode); found "+bad)
 	}
 	c02ModeRead(c, m, "C02.mode-failsafe")
 	if os.Getenv("VERIF_DEBUG_EXITS") != "" {
